@@ -146,4 +146,3 @@ func defaultOnce() []string {
 		"container/list", "container/heap", "unicode/utf16", "hash/crc32", "context", "text/tabwriter", "regexp/syntax", "slices", "maps", "cmp",
 		"gopkg.in/tomb.v2", "crypto"}
 }
-
